@@ -17,7 +17,7 @@ LEVEL_TEXT = ('partial. Lean 4 theorems, for all cubes/patterns/oversampling/fra
               'non-multiples are broadcast to an empty result by NumPy: modelled, outside the quantifier) and assigns to sub-pixel (i,j) the colour '
               'pattern[(i/os)%d][(j/os)%d]; equal QEs reproduce the monochrome result and the channels sum to the flat image; DN = max 0 (floor '
               '(gain polynomial at the clipped count)) for the four gain forms with the exponents of the source power cube, steps in source order, never rounded up, refusal of a Bayer image iff its size is not a multiple (>= 2 rows/cols), non-negative, monotone for every gain curve that '
-              'is non-decreasing on [0, cap], warning iff a pixel exceeds capacity. Hand model checked against lentil.detector on exact dyadic data.')
+              'is non-decreasing on [0, cap], warning iff a pixel exceeds capacity (condition hand-modelled). Hand model checked against lentil.detector on exact dyadic data.')
 LEVEL_NOTE = ('partial: "input frame untouched" and "requested dtype" are observed by the correspondence (read-only, snapshotted '
               'frames; dtype compared) and by the regenerated effect table of C10, not proved about NumPy; a non-flat Spectrum QE agrees with a '
               'vector only through the sampled correspondence (the theorem covers flat spectra and unit invariance); float rounding is not '
@@ -42,9 +42,15 @@ UNPROVEN = ['a Spectrum QE that is reused across calls after its value/wave was 
             'adc leaves the input frame untouched: sampled (frame frozen read-only and snapshotted byte-for-byte on every adc case) and '
             'tied to the regenerated effect table Gen/Effects.lean (theorem adc_has_no_write_site), not proved about NumPy',
             'output dtype equals the requested dtype: sampled (compared on every adc case); DN must be representable in the dtype',
-            'a NON-flat Spectrum QE equals the vector of its samples: by the correspondence only (the model now samples the Spectrum itself with '
-            'the regenerated unit table; theorems cover flat spectra and invariance under the unit of the request)']
-ASSUMPTIONS = ['float32 electron frames and integer frames whose powers/products wrap in their dtype are outside the model (real arithmetic) and are not generated '
+            'that the model of Spectrum.sample (spectrumSample: regenerated unit factor + linear interpolation with zero fill) IS what '
+            'radiometry.Spectrum.sample computes: by the correspondence only (every Spectrum case samples the object itself in the model); given that model, '
+            'flat spectra agree with scalars/vectors (qe_representations_agree), any Spectrum equals the vector of its own samples '
+            '(qe_spectrum_equals_its_samples) and the request unit does not matter (spectrum_sample_unit_invariant)',
+            'the saturation warning: the CONDITION (warn_saturate and saturation_capacity and any(img > capacity)) is hand-modelled (adcWarns, theorem '
+            'adc_warns_iff_exceeds) and tied by the correspondence; only the order of the digitisation steps is regenerated (Gen.adcSteps)']
+ASSUMPTIONS = ['the Spectrum.sample model assumes a unit-less QE spectrum (valueunit=None: unit conversion rescales wavelengths only) on an ascending wavelength '
+               'grid, method=\'linear\' and fill_value=0 (the defaults qe_asarray uses); other valueunits/methods are not modelled or generated',
+               'float32 electron frames and integer frames whose powers/products wrap in their dtype are outside the model (real arithmetic) and are not generated '
                '(integer frames are paired only with powers that fit; NaN/inf frames are not generated)',
                'saturation_capacity 0 is treated like None by the code (`if saturation_capacity:`) and by the model',
                'integer electron frames: the powers x**order must be representable in the frame dtype (NumPy wraps silently: '
